@@ -48,6 +48,28 @@ def byte_int(b):
     return v
 
 
+def _argkey(a):
+    return a if isinstance(a, int) else -1 - a.get_id()
+
+
+def uf_bytes(fname, nbytes, *args):
+    """nbytes symbolic bytes  f(args..., i), i < nbytes  of an uninterpreted function (deterministic in its
+    integer arguments); terms and range constraint are cached across paths"""
+    e = eng()
+    key = ('uf_bytes', fname, nbytes, tuple(_argkey(a) for a in args))
+    hit = e.persist.get(key)
+    if hit is None:
+        zargs = [z3.IntVal(a) if isinstance(a, int) else a for a in args]
+        f = z3.Function(fname, *([z3.IntSort()] * (len(args) + 2)))
+        items = [f(*zargs, z3.IntVal(i)) for i in range(nbytes)]
+        rng = z3.And(*[z3.And(t >= 0, t <= 255) for t in items]) if nbytes else None
+        hit = e.persist[key] = (items, rng, zargs)
+    items, rng, _ = hit
+    if rng is not None:
+        e.add(rng, simplified=True)
+    return SymBytes(items) if nbytes else b''
+
+
 # --------------------------------------------------------------------------------- clock / random
 def stub_time():
     if CONFIG.clock is not None:
@@ -181,12 +203,7 @@ def hash_model(alg, data, outlen):
     else:
         n = len(data)
         val = zi(byte_int(data))
-        items = []
-        for i in range(outlen):
-            t = _Hb(_ALG[alg], n, val, i)
-            e.add(z3.And(t >= 0, t <= 255))
-            items.append(t)
-        out = mk_bytes(items)
+        out = uf_bytes('Hb', outlen, _ALG[alg], n, val)
     for (a2, d2, o2) in CONFIG.hash_log:
         if a2 != alg or len(d2) != len(data):
             continue
@@ -255,12 +272,7 @@ def valid_term(key, msg, sig):
 
 def pub_of_seed(seed):
     """32 public key bytes of a 32-byte seed: uninterpreted injective function"""
-    e = eng()
-    s = zi(byte_int(seed))
-    p = _pub(s)
-    e.add(z3.And(p >= 0, p < 2 ** 256))
-    out = int_to_bytes_model(SymInt(p, 256), 32, 'big')
-    return out
+    return uf_bytes('pub', 32, zi(byte_int(seed)))
 
 
 class StubVerifyKey:
@@ -334,10 +346,8 @@ class StubSigningKey:
             sig = algebra.ed25519_sign(self._seed, message)
         else:
             e = eng()
-            s = _sigf(zi(byte_int(self._seed)), len(message),
-                      zi(byte_int(message)) if len(message) else z3.IntVal(0))
-            e.add(z3.And(s >= 0, s < 2 ** 512))
-            sig = int_to_bytes_model(SymInt(s, 512), 64, 'big')
+            sig = uf_bytes('sig', 64, zi(byte_int(self._seed)), len(message),
+                           zi(byte_int(message)) if len(message) else 0)
             e.add(valid_term(self.verify_key._key, message, sig))
         CONFIG.sign_log.append((self._seed, message, sig))
         return _Signed(sig, message)
